@@ -206,12 +206,19 @@ def rule_det1(prog, rep, tier, scope=None, accepted=None):
             n_unordered += 1
             where = fn.qualname if fn else m.name
             observing, effect = None, None
+            effect_class = None
             if isinstance(p, ast.For) and p.iter is e:
                 vn = names_in(p.target)
                 eff = _loop_effects(p, vn)
                 observing = "for %s in %s" % (src(p.target), src(e, 60))
                 if eff:
                     effect = "%s: %s" % (eff[0][0], src(eff[0][1], 80))
+                    # the class of the effect (for semantic exceptions): every effect is an insertion, keyed by the loop
+                    # variable, into one and the same parameter of the enclosing function
+                    if fn is not None and all(k_ == "insert" and isinstance(n_, ast.Assign) for k_, n_ in eff):
+                        bases = {t_.value.id for _, n_ in eff for t_ in n_.targets if isinstance(t_, ast.Subscript) and isinstance(t_.value, ast.Name)}
+                        if len(bases) == 1 and bases <= set(fn.params()):
+                            effect_class = "insert-into-param:%s" % sorted(bases)[0]
                 else:
                     effect = None
             elif isinstance(p, ast.comprehension) and p.iter is e:
@@ -247,8 +254,8 @@ def rule_det1(prog, rep, tier, scope=None, accepted=None):
             construct = "iter:%s" % src(e, 70)
             if effect is None:
                 rep.ob("DET-1", "%s: %s" % (where, observing), "holds", loc(prog, e), "observed, but no order-sensitive effect (no insertion / sequence append / ordered result)")
-            elif (where, construct) in accepted:
-                rep.ob("DET-1", "%s: %s" % (where, observing), "accepted", loc(prog, e), accepted[(where, construct)])
+            elif (where, construct) in accepted or (effect_class and (where, effect_class) in accepted):
+                rep.ob("DET-1", "%s: %s" % (where, observing), "accepted", loc(prog, e), accepted.get((where, construct)) or accepted[(where, effect_class)])
             else:
                 rep.violation(Finding(
                     "DET-1", where, construct,
